@@ -224,11 +224,12 @@ PROPS["C08"] = {
     "theorems": [
         "GstProofs.C08.rec_roundtrip", "GstProofs.C08.vec_roundtrip", "GstProofs.C08.vec_empty_roundtrip",
         "GstProofs.C08.readVecLines_skip", "GstProofs.C08.readRows_roundtrip", "GstProofs.C08.db_roundtrip",
+        "GstProofs.C08.dbBody_roundtrip", "GstProofs.C08.readDims_roundtrip", "GstProofs.C08.grid_roundtrip",
     ],
     "harnesses": ["vh_c08"],
     "level": "proof",
     "technique": "Lean 4 token-level model of the neutral-file record layer (ASerializable: scalar records, vector records, comments, blank lines) and of the Db file layout, with write/read round-trip theorems for every well-formed content (any number of columns/rows, any legal tokens); differential correspondence: files written by the library are compared token by token with the model's serialisation and read back by the model's reader; for every other serialisable class the library is run through save / reload / save / reload / save and the Lean driver judges file identity, displays and 15-digit agreement",
-    "level_text": "Partial proof: the record layer (scalar, vector, empty vector, comment skipping) and the complete Db layout round-trip are theorems of the model for all contents; the model is tied to ASerializable/Db::_serialize by comparing each generated Db file with the model's serialisation of the same table and by reading it back with the model reader. The per-class field order of the 24 other classes is not modelled: it is exercised on the library (generated instances, all dimensions 1-3, undefined values, 1e-9..1e21 magnitudes, container/prefix settings, short file names) by requiring file(gen1)=file(gen2) up to 2 units of the 15th digit, file(gen2)=file(gen3) exactly, identical displays, and grid geometry/values identity for the Zycor and IfpEn exchange formats.",
+    "level_text": "Partial proof: the record layer (scalar, vector, empty vector, comment skipping) and the complete Db and DbGrid layouts round-trip are theorems of the model for all contents; the model is tied to ASerializable / Db::_serialize / DbGrid::_serialize by comparing each generated Db and DbGrid file with the model's serialisation of the same object and by reading it back with the model reader. The per-class field order of the 24 other classes is not modelled: it is exercised on the library (generated instances, all dimensions 1-3, undefined values, 1e-9..1e21 magnitudes, container/prefix settings, short file names) by requiring file(gen1)=file(gen2) up to 2 units of the 15th digit, file(gen2)=file(gen3) exactly, identical displays, and grid geometry/values identity for the Zycor and IfpEn exchange formats.",
     "level_note": "Trusted: Lean kernel + 3 standard axioms; number formatting (operator<< with 15 digits) and parsing are not modelled - value tokens are taken from the file; fields that are neither serialised nor displayed are only seen through the third-generation comparison; the harness compares displays and files, not every getter.",
     "rule": "per iteration (dimension 1-3, container/prefix on or off): Db (0-4 extra columns with random roles, undefined and extreme values) also compared with the model serialisation; DbGrid (rotated or not), Model (1-2 variables, drifts, anisotropy), NeighUnique/Moving/Bench/Cell/Image, Vario, Polygons, Table, Rule, AnamHermite/DiscreteDD/Empirical, MeshETurbo/EStandard, DbMeshTurbo, DbLine, PolyLine2D, Faults, FracEnviron, Zycor and IfpEn grids. distinct = distinct request line",
     "trivial": lambda line: False,
@@ -241,7 +242,7 @@ PROPS["C09"] = {
     "module": "GstProofs.Props.C09",
     "theorems": [
         "GstProofs.C09.readVecLines_spec", "GstProofs.C09.readVec_spec", "GstProofs.C09.readRows_spec",
-        "GstProofs.C09.deserDb_consistent", "GstProofs.C09.truncated_file",
+        "GstProofs.C09.deserDb_consistent", "GstProofs.C09.deserDbBody_consistent", "GstProofs.C09.deserGrid_consistent", "GstProofs.C09.truncated_file",
     ],
     "harnesses": ["vh_c09"],
     "level": "proof",
